@@ -122,6 +122,9 @@ def build_cases(seed, quick=True):
                 adds,
                 adds + [{'a': 'RmFile', 'ns': 'iso', 'p': [last]}],
                 adds + [{'a': 'AddFp', 'blob': 's', 'iso': [extra_name], 'jol': ['-'], 'udf': ['-']}],
+                # one more record and away again: after an exact fit it was alone in its sector
+                adds + [{'a': 'AddFp', 'blob': 's', 'iso': [extra_name], 'jol': ['-'], 'udf': ['-']},
+                        {'a': 'RmFile', 'ns': 'iso', 'p': [extra_name]}],
                 adds + [{'a': 'Reopen', 'same': False},
                         {'a': 'ModifyInPlace', 'p': [last], 'blob': 't'},
                         {'a': 'ModifyInPlace', 'p': [order[0]], 'blob': 't'}],
@@ -177,6 +180,8 @@ def build_cases(seed, quick=True):
         adds = [{'a': 'AddFp', 'blob': 's', 'iso': ['-'], 'jol': [n], 'udf': ['-']} for n in order]
         extra_j = jname('C', 60, 0)
         for v in (adds, adds + [{'a': 'AddFp', 'blob': 's', 'iso': ['-'], 'jol': [extra_j], 'udf': ['-']}],
+                  adds + [{'a': 'AddFp', 'blob': 's', 'iso': ['-'], 'jol': [extra_j], 'udf': ['-']},
+                          {'a': 'RmHardLink', 'ns': 'jol', 'p': [extra_j]}],
                   adds + [{'a': 'RmHardLink', 'ns': 'jol', 'p': [order[-1]]}]):
             k += 1
             cases.append(('p%d' % k, base + v, 6))
